@@ -168,8 +168,8 @@ def run(prog, rep):
     for uname, create, clean, unlink, flag, opener in (("psemaphore-posix.c", "pp_semaphore_create_handle", "pp_semaphore_clean_handle", "sem_unlink", "sem_created", "sem_open"),
                                                       ("pshm-posix.c", "pp_shm_create_handle", "pp_shm_clean_handle", "shm_unlink", "shm_created", "shm_open")):
         u = prog.unit(uname)
-        cl = u.fn(clean)
-        cr = u.fn(create)
+        cl = u.fn(clean).inlined()
+        cr = u.fn(create).inlined()
         # free -> clean -> unlink under the flag
         frs = [f for f in u.functions.values() if f.name.endswith("_free") and f.api]
         okf = bool(frs) and all(any(c.get("callee") == clean for (b, i, c) in f.calls()) for f in frs)
